@@ -495,7 +495,11 @@ func confdecodeMain(args []string) {
 		}
 		set := entries(delta["set"])
 		kind := vt.Str(c["kind"])
-		e.placeholder("VERIF_PH", vt.Str(line["phval"]), vt.Bool(c["set"]) && (kind == "ph" || kind == "emb" || kind == "emblist"))
+		phSet := vt.Bool(c["set"]) && (kind == "ph" || kind == "emb" || kind == "emblist")
+		if kind == "pair" { // two mutations at once (ConfigDecodePairs.tla): TLC says whether the variable is set
+			phSet = vt.Bool(line["phset"])
+		}
+		e.placeholder("VERIF_PH", vt.Str(line["phval"]), phSet)
 		if kind == "phadv" {
 			ph := e.adversarial(vt.Map(line["adv"]))
 			for i := range set {
